@@ -29,3 +29,23 @@ Definition sin_check (c : float * Z * Z * float * float * float * float * float)
 Definition poly_check (c : Z * Z * float * float) : nat :=
   let '(grlo, grhi, gw, ampl) := c in
   ((if float_same (gw_mean grlo grhi) gw then 0 else 1) + (if float_same (gw_ampl grlo grhi) ampl then 0 else 2))%nat.
+
+Fixpoint zs_same (a b : list Z) : bool :=
+  match a, b with
+  | [], [] => true
+  | x :: a', y :: b' => Z.eqb x y && zs_same a' b'
+  | _, _ => false
+  end.
+
+(* the reader: (rows of the groundwater file in order (id, date, level), requested id, GWTimestamps observed,
+   GWTimeSeriesValues observed at these timestamps): 1 = timestamps are not the dates of the id's rows in file order,
+   2 = a value is not the level of the last row of that date *)
+Definition reader_check (c : list (Z * Z * float) * Z * list Z * list float) : nat :=
+  let '(rows, id, stamps, vals) := c in
+  let s := gw_read rows id in
+  ((if zs_same (map fst s) stamps then 0 else 1) +
+   (if floats_same (map (value_of s) stamps) vals then 0 else 2))%nat.
+
+(* daily level of a traced run against the FILE: (rows, id, queries) *)
+Definition gw_file_check (c : list (Z * Z * float) * Z * list (Z * (bool * float))) : nat :=
+  let '(rows, id, qs) := c in gw_check (gw_read rows id, qs).
